@@ -434,6 +434,15 @@ void record_violation(Trace* t, Outcome& o, const std::vector<Pt>& full, const c
     bool same = true; std::string why;
     for (int r = 0; r < 2 && same; r++) {
         Outcome o2 = run_child(t, full, false, false, true);
+        if (o2.status == ST_VIOLATION && o.status == ST_VIOLATION && o2.sig != sig0) {
+            // the same choices end in a violation in a fresh process too, but it shows differently (typical for memory corruption: what a
+            // stale pointer hits depends on the history of the process). It is real; the fresh-process signature is the canonical one.
+            static int depth = 0;
+            memcpy(t->pts, savedpts.data(), savedn * sizeof(Pt)); t->npts = savedn; snprintf(t->obs, OBSMAX, "%s", savedobs.c_str());
+            o.sig = o2.sig; o.detail = o2.detail + " [first seen as '" + sig0 + "' in a reused runner]";
+            if (depth < 2) { depth++; lock(); S->vio_total--; unlock(); record_violation(t, o, full, tier); depth--; return; }
+            sig0 = o.sig; h = fnv(sig0.data(), sig0.size()); break;      // keeps changing from run to run: record it under the latest signature
+        }
         if (o2.status != o.status || o2.sig != sig0) { same = false; why = "rerun gave status=" + std::to_string(o2.status) + " sig=" + o2.sig + " detail=" + o2.detail; }
     }
     memcpy(t->pts, savedpts.data(), savedn * sizeof(Pt)); t->npts = savedn;
